@@ -364,7 +364,8 @@ def run_trial(subj: Subject, cycles: list[list[str]], work: Path, own: dict[str,
 
 # ================================================================================================ inputs
 DEFAULT_OPTS = dict(layout='v20', compress=(), origin_vertex=True, faceids='full', water=True, overlay_aux=True, vis=True,
-                    n_extra=1, extra_game=False, compress_game=(), fractional_bounds=False, detail_shapes=False, hdr=True, bad=())
+                    n_extra=1, extra_game=False, compress_game=(), fractional_bounds=False, detail_shapes=False, hdr=True, bad=(),
+                    aux='normal')
 VARIANTS: list[dict] = (
     [dict(layout=l) for l in c10_util.LAYOUTS]
     + [dict(compress=('ENTITIES', 'PLANES', 'LEAFS', 'LIGHTING', 'FACES', 'TEXDATA_STRING_DATA')),
@@ -374,6 +375,9 @@ VARIANTS: list[dict] = (
        dict(n_extra=0), dict(n_extra=2, layout='v21'), dict(water=False), dict(overlay_aux=False), dict(vis=False),
        dict(hdr=False), dict(faceids='zeros'), dict(faceids='empty'), dict(origin_vertex=False),
        dict(layout='chaos', fractional_bounds=True), dict(detail_shapes=True)]
+    # side lumps (cleared by a look, restored only by the view's writer) at the values where they LOOK unused
+    + [dict(aux='zero'), dict(aux='default'), dict(aux='mixed'), dict(aux='maxed'),
+       dict(aux='zero', layout='l4d2', compress=('OVERLAY_FADES', 'LEAFMINDISTTOWATER', 'TEXDATA'))]
 )
 # malformed lumps: looking at the view raises (at once, or after other views were parsed), the caller goes on and saves
 BAD_VARIANTS: list[dict] = [
@@ -551,18 +555,20 @@ Definition sim (g : graph) (ne bad : list nat) (accs : list nat) :=
 '''
     bad = []
     total = raised = 0
+    exprs = []
     for subj, g, runs, ref_nonempty, failed in cases:
         ne = sorted(lnum[l.split(':', 1)[1]] if l.startswith('game:') else lnum[l] for l in ref_nonempty
                     if (l.split(':', 1)[1] if l.startswith('game:') else l) in lnum)
         glit = coq_list('mkV [%s] [%s] [%s] [%s]' % tuple(';'.join(map(str, x)) for x in d) for d in g)
-        exprs = [f'let g := {glit} in map (sim g [{";".join(map(str, ne))}] [{";".join(map(str, failed))}]) '
-                 + coq_list('[' + ';'.join(str(pos[v]) for v in accs) + ']' for accs, *_ in runs)]
-        vals = ck.coq_eval(IMPORTS, exprs, name='corr', preamble=pre)
-        if vals is None:
-            ck.obligation('correspondence:get-save-model', False, 'model could not be evaluated')
-            ck.tie_broken.append('correspondence get/save: model evaluation failed')
-            return
-        res = parse_coq_nested(vals[0])
+        exprs.append(f'let g := {glit} in map (sim g [{";".join(map(str, ne))}] [{";".join(map(str, failed))}]) '
+                     + coq_list('[' + ';'.join(str(pos[v]) for v in accs) + ']' for accs, *_ in runs))
+    vals = ck.coq_eval(IMPORTS, exprs, name='corr', preamble=pre)      # one expression per file, one coqc run for all
+    if vals is None:
+        ck.obligation('correspondence:get-save-model', False, 'model could not be evaluated')
+        ck.tie_broken.append('correspondence get/save: model evaluation failed')
+        return
+    for (subj, g, runs, ref_nonempty, failed), val in zip(cases, vals):
+        res = parse_coq_nested(val)
         for (accs, flags, o1, saved, o2), m in zip(runs, res):
             total += 1
             raised += not all(flags)
@@ -783,7 +789,10 @@ Definition case (t : list (list N * list N)) (c : container) (impl aligned : lis
 # ================================================================================================ main
 def run(ck: Ck) -> None:
     ck.rule = ('inputs: tests/test_vec/rot_main.bsp and synthesised consistent BSPs (7 layouts x options: LZMA lumps, '
-               'compressed / extra game lumps, missing aux lumps, FACEIDS variants, no origin vertex, water, vis); histories: '
+               'compressed / extra game lumps, missing aux lumps, FACEIDS variants, no origin vertex, water, vis; side lumps '
+               '(OVERLAY_FADES, OVERLAY_SYSTEM_LEVELS, LEAFMINDISTTOWATER, LEAFFACES, LEAFBRUSHES, PRIMINDICES, PRIMVERTS, '
+               'BRUSHSIDES, TEXDATA, TEXDATA_STRING_TABLE) at the values where they look unused: all zero, the reader\'s defaults '
+               'for an absent lump, first record zero, all bits set); histories: '
                'no access, every single view, every ordered pair on the default file, random subsets and orders, all views '
                'forwards/backwards, 1-3 look/save cycles; 8 malformed inputs (unknown static-prop version, stray bytes in the prop '
                'lump, unterminated entity, texinfo naming a missing texdata, truncated detail props / overlays, also LZMA-compressed) '
@@ -821,6 +830,10 @@ def run(ck: Ck) -> None:
             'raw_reads_own_or_unowned': 'forallb (fun p => mem (snd p) (own bsp_graph (fst p)) || '
                                         f'negb (existsb (fun j => mem (snd p) (own bsp_graph j)) (seq 0 ({n})))) bsp_raw_reads',
             'stores_go_to_owned_lumps': 'forallb (fun p => mem (snd p) (own bsp_graph (fst p))) bsp_stores',
+            # a lump that a look clears (ParsedLump.to_clear) is empty when the writer runs: a store of it that is skipped under
+            # some data-dependent condition ("only when used") leaves it empty in the saved file (seeded c10_4)
+            'cleared_lumps_are_never_stored_conditionally':
+                f'forallb (fun p => negb (existsb (fun j => mem (snd p) (own bsp_graph j)) (seq 0 ({n})))) bsp_cond_stores',
             'conditional_stores_only_FACEIDS_unowned': 'forallb (fun p => Nat.eqb (snd p) 11 && '
                                                        f'negb (existsb (fun j => mem 11 (own bsp_graph j)) (seq 0 ({n})))) bsp_cond_stores',
             # statement order of ParsedLump.__get__ and loop shape of BSP.save (hypothesis shape_ok of the theorems)
@@ -864,7 +877,8 @@ def run(ck: Ck) -> None:
         ck.hist('input_malformed', '+'.join(opts['bad']))
     # ---------------------------------------------------------------------------- correspondence
     if built and side:
-        corr_files = [default, synth_subjects[0][1], synth_subjects[5][1]] + subjects[:1] + \
+        aux_zero = next(s for o, s in synth_subjects if o == dict(aux='zero'))
+        corr_files = [default, synth_subjects[0][1], synth_subjects[5][1], aux_zero] + subjects[:1] + \
                      [bad_subjects[1][1], bad_subjects[3][1], bad_subjects[5][1]]
         correspondence(ck, side, corr_files, work)
         container_check(ck, [s for _, s in synth_subjects] + [s for _, s in bad_subjects[:2]] + subjects[:1], work)
@@ -949,9 +963,16 @@ def run(ck: Ck) -> None:
     for k, (opts, s) in enumerate(synth_subjects):
         attempt(s, opts, [[]])
         attempt(s, opts, [list(VIEWS)])
-        attempt(s, opts, [list(reversed(VIEWS))])
+        if 'aux' not in opts or ck.budget(0, 1):
+            attempt(s, opts, [list(reversed(VIEWS))])
         # every single view on every layout; on the option variants a sample of 6 in the quick tier
-        for v in (VIEWS if k < len(c10_util.LAYOUTS) or ck.budget(0, 1) else rng.sample(VIEWS, 4)):
+        if k < len(c10_util.LAYOUTS) or ck.budget(0, 1):
+            singles = VIEWS
+        elif 'aux' in opts:     # the views that own side lumps (and faces: FACEIDS), each alone
+            singles = [v for v in VIEWS if v == 'faces' or sum(1 for w in own.values() if w == v) > 1]
+        else:
+            singles = rng.sample(VIEWS, 4)
+        for v in singles:
             attempt(s, opts, [[v]])
     # malformed lumps: looks that raise are caught (like a defensive caller does), then the object is saved
     for opts, s in bad_subjects:
@@ -969,7 +990,7 @@ def run(ck: Ck) -> None:
     for k, (a, b) in enumerate(itertools.permutations(VIEWS, 2)):
         if (a < b and k % 3 == 0) or ck.budget(0, 1):
             attempt(default, synth_subjects[1][0], [[a, b]])
-    nrand = ck.budget(60, 3000)
+    nrand = ck.budget(48, 3000)
     for i in range(nrand):
         opts, s = synth_subjects[rng.randrange(len(synth_subjects))]
         ncyc = rng.choice([1, 1, 1, 2, 3])
@@ -1017,7 +1038,8 @@ def run(ck: Ck) -> None:
                    'order_consistent_bsp_graph', 'every_dependency_later_in_rebuild_order', 'no_writer_looks_at_its_own_view',
                    'no_reader_looks_at_its_own_view', 'every_cleared_lump_stored_by_its_writer', 'no_lump_owned_twice',
                    'every_view_in_rebuild_order', 'no_two_views_share_a_main_lump', 'raw_reads_own_or_unowned',
-                   'stores_go_to_owned_lumps', 'conditional_stores_only_FACEIDS_unowned'):
+                   'stores_go_to_owned_lumps', 'conditional_stores_only_FACEIDS_unowned',
+                   'cleared_lumps_are_never_stored_conditionally'):
             if inst.get(nm) is False:
                 ck.explain('instance:' + nm)
 
